@@ -974,12 +974,74 @@ def check_labels(L: Layout, r) -> list[tuple[str, str, object, object, dict]]:
     return bad
 
 
+class _EnvCaptured(Exception):
+    def __init__(self, env):
+        self.env = env
+
+
+EXECUTOR_DRIVE = {"real": 0, "fallback": 0}
+
+
+def real_executor_env(wd: str):
+    """The environment that the real `Executor._run_command` hands to `launch_command` for a step
+    with working directory `wd` (called with the current directory = the root, as the director runs):
+    the method is driven with stub collaborators and `launch_command` replaced by a capture."""
+    import contextlib
+    import types
+
+    from stepup.core import executor as ex
+    from stepup.core.enums import Need
+
+    class _Db:
+        async def __aenter__(self):
+            return self
+
+        async def __aexit__(self, *a):
+            return False
+
+    async def reporter(*a, **k):
+        return None
+
+    async def capture(command, *, shell, env, cwd, mp_ctx, run):
+        raise _EnvCaptured(dict(env))
+
+    step = types.SimpleNamespace(
+        command_and_workdir=("true", wd), uses_shell=lambda: False, get_need=lambda: Need.DEFAULT,
+        get_env_overrides=lambda: {}, out_paths=lambda: [], vol_paths=lambda: [])
+    run = types.SimpleNamespace(step=step, description="true", job_i=1, inp_digest=b"\0" * 4, outcome=None, success=True)
+    me = types.SimpleNamespace(
+        reporter=reporter, db=_Db(), workflow=types.SimpleNamespace(create_dirs=lambda dirs: None), base_env={},
+        mp_ctx=None, suspended_total=0.0, step_usage=0, _track_running=lambda run: contextlib.nullcontext())
+    old = ex.launch_command
+    ex.launch_command = capture
+    try:
+        coro = ex.Executor._run_command(me, run)
+        try:
+            coro.send(None)
+        except _EnvCaptured as c:
+            EXECUTOR_DRIVE["real"] += 1
+            return c.env
+        except BaseException:  # noqa: BLE001  (a refactored method the stub does not fit)
+            EXECUTOR_DRIVE["fallback"] += 1
+            return None
+        finally:
+            coro.close()
+        EXECUTOR_DRIVE["fallback"] += 1
+        return None
+    finally:
+        ex.launch_command = old
+
+
 def check_executor(L: Layout, wd: str) -> list[tuple[str, str, object, object]]:
     """HERE and ROOT as `_run_command` computes them (director's cwd = root)."""
     bad = []
     with step_env(L.root, L.root, None):
-        root_var = str(Path.cwd().relpath(wd))
-        here_var = str(Path(wd).relpath())
+        env = real_executor_env(wd)
+        if env is not None and "ROOT" in env and "HERE" in env:
+            root_var, here_var = env["ROOT"], env["HERE"]
+        else:  # `_run_command` could not be driven with the stub: fall back to the modelled source lines
+            root_var = str(Path.cwd().relpath(wd))
+            here_var = str(Path(wd).relpath())
     d = same_place(L.root, here_var, L.root, wd)
     if d:
         bad.append(("env-here-wrong", "HERE does not designate the step's working directory from the root",
@@ -1020,10 +1082,13 @@ async def search(ctx):
             wd = r.choice(["sub", "sub/", "sub/deep", ".", "./", "a b/", "a/../b", "new/dir", "..", "../o/a"])
             wd = gen_path(r) if r.random() < 0.3 else wd
             if wd.startswith("/"):
-                continue
+                # an absolute working directory is taken as is: use one inside the temporary tree
+                wd = os.path.join(r.choice([L.root, os.path.dirname(L.root)]), r.choice(["sub", "o/a", "."]))
             kinds["executor-env"] = kinds.get("executor-env", 0) + 1
             for sig, what, observed, expected in check_executor(L, wd):
                 _report(ctx, sig, what, observed, expected, {"workdir": wd})
+        kinds["executor-env:real-_run_command"] = EXECUTOR_DRIVE["real"]
+        kinds["executor-env:modelled-source-lines"] = EXECUTOR_DRIVE["fallback"]
     finally:
         L.close()
     layouts = api_layouts()
